@@ -18,6 +18,7 @@ Definition bopP (o : binop) (a b : Prop) : Prop :=
 Fixpoint holds (f : form) (rho : nat -> env) (i : nat) {struct f} : Prop :=
   match f with
   | FVar v => rho i v = true
+  | FAtom a => rho i a = true
   | FConst b => b = true
   | FNot f => ~ holds f rho i
   | FBin o f g => bopP o (holds f rho i) (holds g rho i)
